@@ -11,13 +11,31 @@ typedef struct env {
 	int16_t eff[64]; int neff;
 	/* environment answers: a shared script, consumed in order */
 	const uint8_t *ans; int nans, pos;
+	int tmp;		/* scratch for conditions of the form (tmp = f()) != k */
 } env_t;
 
+struct fibre;
 typedef struct { uint8_t op; int16_t a, b; } ins_t;
-typedef struct { pt_state_t (*fn)(pt_t *, env_t *); const ins_t *code; const char *text; } prog_t;
+/* fn: a protothread over a pt_t; ffn: a fibre entry point (opened with PT_BEGIN_FIBRE; its environment is c08_fenv);
+ * maxline: the highest source line on which the body has a macro that stores __LINE__; fam: index into the family names */
+typedef struct {
+	pt_state_t (*fn)(pt_t *, env_t *); int (*ffn)(struct fibre *);
+	const ins_t *code; const char *text; uint32_t maxline; uint8_t fam;
+} prog_t;
+extern env_t *c08_fenv;
 
 static inline void E_emit(env_t *E, int k) { if (E->neff < 64) E->eff[E->neff] = (int16_t)k; E->neff++; }
 static inline int E_env(env_t *E, int id) { (void)id; int r = E->pos < E->nans ? E->ans[E->pos] : 1; E->pos++; return r; }
 /* the same answer as a double in (0,1): true in C, but zero once converted to an integer type */
 static inline double E_envd(env_t *E, int id) { return E_env(E, id) ? 0.5 : 0.0; }
+/* the same answer negated, as one of two given ints, as 64-bit values, as a pointer */
+static inline int E_envn(env_t *E, int id) { return !E_env(E, id); }
+static inline int E_envk(env_t *E, int id, int t, int f) { return E_env(E, id) ? t : f; }
+static inline long long E_envll(env_t *E, int id, long long t) { return E_env(E, id) ? t : 0; }
+static inline unsigned long long E_envull(env_t *E, int id, unsigned long long t) { return E_env(E, id) ? t : 0; }
+static inline void *E_envp(env_t *E, int id) { return E_env(E, id) ? (void *)E : (void *)0; }
+/* constants the compiler cannot see through, and an operand for comma expressions; none of them consumes an answer */
+static inline int E_one(env_t *E) { return E->nans >= 0; }
+static inline int E_zero(env_t *E) { return E->nans < 0; }
+static inline void E_nop(env_t *E) { E->tmp = 0; }
 #endif
